@@ -40,11 +40,7 @@ Theorem C05_quit_ends_loop : forall sh scr prefix later progs s,
   qwake_ok sh = true ->
   reach sh scr (init prefix later progs) s -> quit (sg s) = true ->
   quiescent s = false /\ (pc s = LPoll -> 0 < evfd (sg s) \/ midquit s = true).
-Proof.
-  intros sh scr prefix later progs s QW R Q.
-  pose proof (J3_reach _ _ _ _ _ _ QW (reach_reach_t _ _ _ _ R)) as J.
-  split; [apply J3_not_quiescent; assumption|]. intros P. apply J; assumption.
-Qed.
+Proof. exact quit_ends_loop. Qed.
 Print Assumptions C05_quit_ends_loop.
 
 (* "once the current iteration is finished": any step (of any thread, time-outs included) from a
@@ -82,14 +78,7 @@ Theorem C05_quit_not_lost : forall sh scr prefix later progs s,
   reach sh scr (init prefix later progs) s -> quit_since_ret (log (sg s)) = true ->
   quit (sg s) = true /\ quiescent s = false /\
   (pc s = LTest -> exists s', step sh scr s TLoop = Some s' /\ pc s' = LExit).
-Proof.
-  intros sh scr prefix later progs s RE QW R QS.
-  pose proof (J2_reach _ _ _ _ _ _ RE (reach_reach_t _ _ _ _ R) QS) as Q.
-  split; [exact Q|]. split.
-  - apply J3_not_quiescent; [|exact Q]. apply (J3_reach _ _ _ _ _ _ QW (reach_reach_t _ _ _ _ R)).
-  - intros P. destruct s as [g p lc ln fc]. cbn in *. subst p. unfold step. cbn. rewrite Q.
-    destruct lc; eexists; split; reflexivity.
-Qed.
+Proof. exact quit_not_lost. Qed.
 Print Assumptions C05_quit_not_lost.
 
 (* REFUTED for every shape that clears quit_ on entry (the pinned tree, finding F-3): quit() on the
@@ -217,28 +206,21 @@ Print Assumptions C05_dtor_touches_destroyed_loop_partial.
    of getNextLoop calls made before (cursor = c mod N) *)
 Theorem C05_pool_any_sequence : forall N ops c, 0 < N ->
   gen_pool_run N (c mod N) ops = (pool_spec N c ops, (c + count_next ops) mod N).
-Proof. intros N ops c H. rewrite gen_pool_run_is_model. apply pool_run_spec; [apply pinned_pshape_ok|exact H]. Qed.
+Proof. exact gen_pool_any_sequence. Qed.
 Print Assumptions C05_pool_any_sequence.
 
 (* strict round-robin: the (i+1)-th of k consecutive getNextLoop calls on a fresh pool of N > 0
    threads returns loop i mod N, for all N, k, i *)
 Theorem C05_round_robin : forall N k i, 0 < N -> i < k ->
   nth i (fst (gen_pool_run N 0 (repeat PNext k))) None = Some (i mod N).
-Proof. intros N k i H1 H2. rewrite gen_pool_run_is_model. apply round_robin; [apply pinned_pshape_ok|exact H1|exact H2]. Qed.
+Proof. exact gen_round_robin. Qed.
 Print Assumptions C05_round_robin.
 
 (* any N consecutive calls, from any cursor position, return N distinct loops of the pool *)
 Theorem C05_round_robin_distinct : forall N c, 0 < N ->
   fst (gen_pool_run N (c mod N) (repeat PNext N)) = map (fun i => Some ((c + i) mod N)) (seq 0 N) /\
   NoDup (map (fun i => (c + i) mod N) (seq 0 N)) /\ (forall i, (c + i) mod N < N).
-Proof.
-  intros N c H. split; [|apply consecutive_distinct; exact H].
-  rewrite C05_pool_any_sequence by exact H. cbn [fst].
-  assert (G : forall k c, pool_spec N c (repeat PNext k) = map (fun i => Some ((c + i) mod N)) (seq 0 k)).
-  { induction k as [|k IH]; intros c0; [reflexivity|]. cbn [repeat pool_spec seq map]. rewrite Nat.add_0_r. f_equal.
-    rewrite IH, <- seq_shift, map_map. apply map_ext. intros a. do 2 f_equal. lia. }
-  apply G.
-Qed.
+Proof. exact gen_round_robin_distinct. Qed.
 Print Assumptions C05_round_robin_distinct.
 
 (* equal hash codes map to the same loop, wherever the calls occur in whatever call sequences,
@@ -247,16 +229,13 @@ Theorem C05_hash_stable : forall N, 0 < N -> forall ops1 ops2 c1 c2 i1 i2 h,
   nth_error ops1 i1 = Some (PHash h) -> nth_error ops2 i2 = Some (PHash h) ->
   nth_error (fst (gen_pool_run N (c1 mod N) ops1)) i1 = Some (Some (h mod N)) /\
   nth_error (fst (gen_pool_run N (c2 mod N) ops2)) i2 = Some (Some (h mod N)).
-Proof.
-  intros N H ops1 ops2 c1 c2 i1 i2 h H1 H2. rewrite !gen_pool_run_is_model.
-  apply hash_stable; auto. apply pinned_pshape_ok.
-Qed.
+Proof. exact gen_hash_stable. Qed.
 Print Assumptions C05_hash_stable.
 
 (* N = 0: every call returns the base loop (None), the cursor does not move *)
 Theorem C05_empty_pool_base : forall ops next,
   gen_pool_run 0 next ops = (map (fun _ => None) ops, next).
-Proof. intros ops next. rewrite gen_pool_run_is_model. apply pool_run_empty. apply pinned_pshape_ok. Qed.
+Proof. exact gen_empty_pool_base. Qed.
 Print Assumptions C05_empty_pool_base.
 
 (* ------------------------------------------------------------ non-vacuity *)
